@@ -64,8 +64,9 @@ def svc(uuid, *items, secondary=False, pin=None, form="option"):
     return dict(k="svc", uuid=uuid, items=list(items), secondary=secondary, pin=pin, form=form)
 
 
-def server(*services, gap=False):
-    return dict(services=list(services), gap=gap)
+def server(*services, gap=False, mtu=247):
+    """mtu: bluetoe::max_mtu_size<> of the server"""
+    return dict(services=list(services), gap=gap, mtu=mtu)
 
 
 # ------------------------------------------------------------------------------------------------
@@ -94,7 +95,7 @@ def n_char_attrs(c):
 
 def resolve(cfg):
     """returns a deep copy where every pin is absolute: svc["handle"] = H|None, ch["abs"] = None | ("h",H) | ("hs",D,V,C)"""
-    out = dict(services=[], gap=cfg["gap"])
+    out = dict(services=[], gap=cfg["gap"], mtu=cfg.get("mtu", 247))
     nxt = 1
     for s in cfg["services"]:
         s2 = dict(s)
@@ -304,7 +305,7 @@ def emit_cpp(name, cfg):
         decl.append("    " + head + "\n        " + ",\n        ".join(opts) + " >")
     if not r["gap"]:
         decl.append("    bluetoe::no_gap_service_for_gatt_servers")
-    decl.append("    bluetoe::max_mtu_size< 247 >")
+    decl.append("    bluetoe::max_mtu_size< %d >" % r["mtu"])
     text = "using server_t = bluetoe::server<\n" + ",\n".join(decl) + " >;"
     return pre, text, attrs, svcs
 
@@ -328,6 +329,7 @@ def emit_header(name, cfg):
     o += pre
     o.append(text)
     o.append('static const char config_name[] = "%s";' % name)
+    o.append("static const std::uint16_t server_mtu = %d;" % cfg.get("mtu", 247))
     o.append("static const char config_decl[] =")
     for l in text.split("\n"):
         o.append('    "%s\\n"' % l.replace("\\", "\\\\").replace('"', '\\"'))
@@ -338,9 +340,9 @@ def emit_header(name, cfg):
     for a in attrs:
         tb = type_bytes(a["type"])
         val = a["value"] if a["value"] is not None else []
-        assert len(val) <= 40
+        assert len(val) <= 320
         o.append("    { 0x%04x, gattdb::k_%s, %d, %s, %d, %d, %d, %d, %s }," % (
-            a["handle"], a["kind"], 1 if len(tb) == 16 else 0, c_bytes(tb, 16), a["svc"], 1 if a["readable"] else 0, a.get("flags", 0), len(val), c_bytes(val, 40)))
+            a["handle"], a["kind"], 1 if len(tb) == 16 else 0, c_bytes(tb, 16), a["svc"], 1 if a["readable"] else 0, a.get("flags", 0), len(val), c_bytes(val, len(val))))
     o.append("};")
     o.append("static const gattdb::ref_service ref_services[] = {")
     for s in svcs:
@@ -398,7 +400,7 @@ def b32(i=0):
 
 
 # ---- atoms alone / baseline ----------------------------------------------------------------------------------
-add("plain16", server(svc(S16[0], ch(C16[0], b8()), ch(C16[1], b8(1)))), C02="quick", C04="quick")
+add("plain16", server(svc(S16[0], ch(C16[0], b8()), ch(C16[1], b8(1)))), C02="quick", C04="thorough")
 add("plain128", server(svc(S128[0], ch(C128[0], b8()), ch(AUTO, b32()))), C02="thorough", C04="quick")
 add("two16", server(svc(S16[0], ch(C16[0], b8())), svc(S16[1], ch(C16[1], b8(1)))), C02="quick", C03="quick", C04="thorough")
 add("three16", server(svc(S16[0], ch(C16[0], b8())), svc(S16[1], ch(C16[1], b8(1)), ch(C16[2], b32())), svc(S16[2], ch(C16[3], b8(2)))),
@@ -454,6 +456,18 @@ add("inclfixed", server(svc(S16[0], ch(C16[0], b8()), secondary=True, pin=7), sv
 add("incl2", server(svc(S16[0], ch(C16[0], b8()), secondary=True), svc(S128[0], ch(AUTO, b8(2)), secondary=True),
                     svc(S16[1], inc(S16[0]), inc(S128[0]), ch(C16[1], b8(1), notify=True), ch(C16[2], b32()))), C04="quick", C03="thorough")
 add("inclprim", server(svc(S16[0], ch(C16[0], b8())), svc(S16[1], inc(S16[0]), ch(C16[1], b8(1), pin=("h", 3))), svc(S16[2], ch(C16[2], b8(2)))), C04="thorough")
+
+# long values and a large server MTU: the 8 bit pair length of Read By Type (value truncated to 253 octets)
+add("bigval", server(svc(S16[0], ch(C16[0], ("arr", 250)), ch(C16[0], ("arr", 253)), ch(C16[0], ("arr", 254)), ch(C16[0], ("arr", 300)), ch(C16[1], ("arr", 255)), ch(C128[0], ("arr", 256))),
+                     mtu=512), C02="quick")
+# nested includes: an included service that has include declarations itself (with and without characteristics in between)
+add("nest16", server(svc(S16[0], ch(C16[0], b8()), secondary=True), svc(S16[1], inc(S16[0]), ch(C16[1], b8(1)), secondary=True), svc(S16[2], inc(S16[0]), secondary=True),
+                     svc(S16[3], inc(S16[1]), inc(S16[2]), ch(C16[2], b8(2)))), C04="quick", C03="thorough")
+add("nest128", server(svc(S128[0], ch(AUTO, b8()), secondary=True), svc(S128[1], inc(S128[0]), secondary=True), svc(S128[2], inc(S128[1]), inc(S128[0]), ch(AUTO, b8(1), notify=True), secondary=True),
+                      svc(S128[3], inc(S128[2]), inc(S128[1]), ch(AUTO, b8(2))), svc(S16[0], ch(C16[0], b8(3)))), C04="quick", C03="thorough")
+# a service with a fixed handle *and* include declarations (the included services have no fixed handles)
+add("inclpin", server(svc(S16[0], ch(C16[0], b8()), secondary=True), svc(S16[3], ch(C16[3], b8(4)), secondary=True), svc(S16[1], inc(S16[0]), ch(C16[1], b8(1)), pin=4),
+                      svc(S128[0], inc(S16[3]), inc(S16[0]), ch(AUTO, b8(2), pin=("h", 2)), pin=3), svc(S16[2], ch(C16[2], b8(3)))), C02="quick", C03="thorough", C04="quick")
 
 # larger thorough-only layouts
 add("biggap", server(svc(S16[0], ch(C16[0], b8()), pin=0x1f), svc(S128[0], ch(AUTO, b32(), notify=True, name="Abc", pin=("hs", 0x10, 0x0f, 0x08)), ch(C16[1], b8(1), pin=("h", 0x11)), pin=0x0c),
